@@ -76,7 +76,7 @@ func checkC09(c *Ctx) {
 		}
 		// a line break inside the quotes, in rotating shapes
 		for strings.Contains(t.Content, "N") {
-			t.Content = strings.Replace(t.Content, "N", []string{"\n", "\n    ", "\r\n  ", "\n\n\t ", " \n"}[len(texts)%5], 1)
+			t.Content = strings.Replace(t.Content, "N", []string{"\n", "\n    ", "\r\n  ", "\n\n\t ", " \n", "\n\u3000", "\n  \u00a0"}[len(texts)%7], 1)
 		}
 		texts = append(texts, t)
 	}
